@@ -14,8 +14,9 @@ use std::collections::BTreeMap;
 use std::future::Future;
 use std::pin::Pin;
 use std::rc::Rc;
-use std::sync::Arc;
-use std::sync::atomic::{AtomicUsize, Ordering};
+use std::sync::atomic::{AtomicU64, AtomicUsize, Ordering};
+use std::sync::{Arc, Condvar, Mutex};
+use std::time::Duration;
 use std::task::{Context, Poll, Wake, Waker};
 
 use p2panda::verif_api::TaskTracker;
@@ -24,7 +25,6 @@ use vh_common::{Args, Outcome, Rng, TraceWriter, Value, catch, json, read_ndjson
 
 pub fn run(args: &Args) {
     match (args.mode.as_str(), args.extra.get("mode").map(|s| s.as_str())) {
-        ("replay", Some("pipeline")) => replay_pipeline(args),
         ("replay", _) => replay(args),
         ("record", _) => record(args),
         _ => unknown(args),
@@ -64,9 +64,84 @@ pub(crate) fn controller(name: &'static str) -> Option<p2panda_core::verif::Park
                 *slot = Some(name);
                 Some(Box::pin(YieldOnce(false)) as p2panda_core::verif::Parked)
             }
-            None => None,
+            None => PIPE_GATE.with(|g| {
+                g.borrow().clone().map(|gate| {
+                    // the real second thread: block it right here until the harness lets it go on
+                    Box::pin(async move { gate.arrive(name) }) as p2panda_core::verif::Parked
+                })
+            }),
         }
     })
+}
+
+thread_local! {
+    /// Set on the harness-owned pipeline thread (threaded replay): its gate.
+    static PIPE_GATE: RefCell<Option<Arc<Gate>>> = const { RefCell::new(None) };
+}
+
+/// Hand-over-hand control of the second thread: it blocks at every schedule point until the
+/// harness grants one permit (or opens the gate for good).
+pub(crate) struct Gate {
+    m: Mutex<GateState>,
+    cv: Condvar,
+}
+
+#[derive(Default)]
+struct GateState {
+    arrivals: u64,
+    at: Option<&'static str>,
+    permits: u64,
+    open: bool,
+}
+
+const PATIENCE: Duration = Duration::from_secs(120);
+
+impl Gate {
+    fn new() -> Arc<Gate> {
+        Arc::new(Gate { m: Mutex::new(GateState::default()), cv: Condvar::new() })
+    }
+
+    fn arrive(&self, name: &'static str) {
+        let mut st = self.m.lock().unwrap();
+        st.arrivals += 1;
+        st.at = Some(name);
+        self.cv.notify_all();
+        while !st.open && st.permits == 0 {
+            st = self.cv.wait(st).unwrap();
+        }
+        if !st.open {
+            st.permits -= 1;
+        }
+        st.at = None;
+    }
+
+    fn grant(&self) {
+        let mut st = self.m.lock().unwrap();
+        st.permits += 1;
+        self.cv.notify_all();
+    }
+
+    fn open(&self) {
+        let mut st = self.m.lock().unwrap();
+        st.open = true;
+        self.cv.notify_all();
+    }
+
+    /// Waits until the thread has arrived at its `n`-th schedule point; returns the point's name.
+    /// The thread is certain to get there (nothing it waits for is withheld), so running out of
+    /// patience is a tool error, never a verdict.
+    fn wait_arrival(&self, n: u64) -> &'static str {
+        let mut st = self.m.lock().unwrap();
+        while st.arrivals < n || st.at.is_none() {
+            let (g, to) = self.cv.wait_timeout(st, PATIENCE).unwrap();
+            st = g;
+            if to.timed_out() && (st.arrivals < n || st.at.is_none()) {
+                eprintln!("threaded replay: pipeline thread did not reach its next schedule point");
+                std::process::exit(2);
+            }
+        }
+        st.at.unwrap()
+    }
 }
 
 /// Harness-level schedule point (same mechanics as the hooks inside the real code).
@@ -176,15 +251,23 @@ pub(crate) struct Shared {
     pub held: BTreeMap<String, usize>,
     /// Task instances by address, in creation order; clones are kept alive (no address reuse).
     pub tasks: Vec<usize>,
-    pub runs: u64,
+    /// Number of `send`s completed by submitters.
+    pub sent: u64,
 }
 
 struct System {
     subs: Vec<String>,
     actors: BTreeMap<String, Actor>,
     shared: Rc<RefCell<Shared>>,
-    #[allow(dead_code)]
-    keep_tx: mpsc::Sender<(u64, String)>,
+    /// Events taken off the channel by the pipeline loop (= processing runs started).
+    runs: Arc<AtomicU64>,
+    /// Events whose `mark_as_done` has returned.
+    done: Arc<AtomicU64>,
+    keep_tx: Option<mpsc::Sender<(u64, String)>>,
+    /// Threaded mode: the second thread and its gate.
+    thread: Option<(std::thread::JoinHandle<()>, Arc<Gate>)>,
+    arrivals: u64,
+    at_gate: Option<&'static str>,
 }
 
 fn id_num(id: &str) -> u64 {
@@ -193,10 +276,12 @@ fn id_num(id: &str) -> u64 {
 
 /// `more[s]`: the submitter's call table goes on after the calls it executes in this run (record
 /// mode cuts tables short): it then parks at `h.returned` (spec location `track`) and stops.
-fn build(calls: &BTreeMap<String, Vec<String>>, more: &BTreeMap<String, bool>, cap: usize) -> System {
+fn build(calls: &BTreeMap<String, Vec<String>>, more: &BTreeMap<String, bool>, cap: usize, threaded: bool) -> System {
     let tracker = TaskTracker::<Res, u64>::new();
     let (tx, mut rx) = mpsc::channel::<(u64, String)>(cap.max(1));
     let shared = Rc::new(RefCell::new(Shared::default()));
+    let runs = Arc::new(AtomicU64::new(0));
+    let done = Arc::new(AtomicU64::new(0));
     let mut actors = BTreeMap::new();
     // keeps every Task instance alive so that instance addresses are never reused
     let keep: Rc<RefCell<Vec<p2panda::verif_api::Task<Res, u64>>>> = Rc::new(RefCell::new(Vec::new()));
@@ -226,6 +311,7 @@ fn build(calls: &BTreeMap<String, Vec<String>>, more: &BTreeMap<String, bool>, c
                 }
                 hpoint("h.tracked").await;
                 let _ = tx.send((id, s2.clone())).await;
+                shared.borrow_mut().sent += 1;
                 hpoint("h.sent").await;
                 let r = task.ready().await;
                 {
@@ -241,29 +327,46 @@ fn build(calls: &BTreeMap<String, Vec<String>>, more: &BTreeMap<String, bool>, c
         actors.insert(s.clone(), Actor::new(Box::pin(fut)));
     }
 
-    {
-        let (tracker, shared) = (tracker.clone(), shared.clone());
-        // mirrors the pipeline thread (pipeline.rs:138-140)
-        let fut = async move {
+    // mirrors the pipeline thread (pipeline.rs:138-140)
+    let pipe_loop = {
+        let (tracker, runs, done) = (tracker.clone(), runs.clone(), done.clone());
+        async move {
             while let Some((id, _from)) = rx.recv().await {
-                let run = {
-                    let mut sh = shared.borrow_mut();
-                    sh.runs += 1;
-                    sh.runs
-                };
+                let run = runs.fetch_add(1, Ordering::SeqCst) + 1;
                 hpoint("h.recvd").await;
                 tracker.mark_as_done(id, (id, run)).await;
+                done.fetch_add(1, Ordering::SeqCst);
                 hpoint("h.marked").await;
             }
-        };
-        actors.insert("pipe".to_string(), Actor::new(Box::pin(fut)));
+        }
+    };
+    let mut thread = None;
+    if threaded {
+        // a real second OS thread with its own current-thread runtime, as Pipeline::new spawns it
+        let gate = Gate::new();
+        let g2 = gate.clone();
+        let handle = std::thread::spawn(move || {
+            PIPE_GATE.with(|g| *g.borrow_mut() = Some(g2));
+            let rt = tokio::runtime::Builder::new_current_thread().enable_all().build().expect("runtime");
+            let local = tokio::task::LocalSet::new();
+            local.spawn_local(pipe_loop);
+            rt.block_on(local);
+        });
+        thread = Some((handle, gate));
+    } else {
+        actors.insert("pipe".to_string(), Actor::new(Box::pin(pipe_loop)));
     }
 
     System {
         subs: calls.keys().cloned().collect(),
         actors,
         shared,
-        keep_tx: tx,
+        runs,
+        done,
+        keep_tx: Some(tx),
+        thread,
+        arrivals: 0,
+        at_gate: None,
     }
 }
 
@@ -295,6 +398,88 @@ impl System {
             if !progress && !any_woken {
                 break;
             }
+        }
+    }
+
+    /// Threaded mode: one spec step of the pipeline = let the second thread run to its next
+    /// schedule point and wait until it is parked there. Returns the spec location reached.
+    fn pipe_step_threaded(&mut self, act: &str) -> String {
+        let gate = self.thread.as_ref().unwrap().1.clone();
+        // PRecv happens by itself as soon as an event is in the channel (the thread then waits at
+        // `h.recvd`); every other step starts from a gate and needs a permit
+        if self.at_gate.is_some() && !(act == "PRecv" && self.at_gate == Some("h.recvd")) {
+            gate.grant();
+            self.arrivals += 1;
+        } else if self.at_gate.is_none() {
+            self.arrivals += 1;
+        }
+        let at = gate.wait_arrival(self.arrivals);
+        self.at_gate = Some(at);
+        pipe_loc_name(&Loc::At(at))
+    }
+
+    /// Threaded mode: lets the second thread run freely and decides who is stuck for good.
+    fn run_to_quiescence_threaded(&mut self) {
+        let gate = self.thread.as_ref().unwrap().1.clone();
+        gate.open();
+        let mut t0 = std::time::Instant::now();
+        loop {
+            // poll everybody who can move: parked at a point, or blocked with a fired waker (a
+            // lock/channel permit may have been handed to a queued submitter by the other thread)
+            let mut progress = false;
+            for s in self.subs.clone() {
+                let a = self.actors.get_mut(&s).unwrap();
+                loop {
+                    if a.finished() || (matches!(a.loc, Loc::Blocked(_)) && a.wakes.0.swap(0, Ordering::SeqCst) == 0) {
+                        break;
+                    }
+                    if a.poll() {
+                        progress = true;
+                    }
+                }
+            }
+            if self.subs.iter().all(|s| self.actors[s].finished()) {
+                break;
+            }
+            if progress {
+                t0 = std::time::Instant::now();
+                continue;
+            }
+            // every event sent so far is certain to be processed by the free-running thread;
+            // wait for exactly that (patience exhausted = tool error, not a verdict)
+            let sent = self.shared.borrow().sent;
+            if self.done.load(Ordering::SeqCst) < sent {
+                std::thread::sleep(Duration::from_millis(1));
+                if t0.elapsed() > PATIENCE {
+                    eprintln!("threaded replay: pipeline thread did not drain its channel");
+                    std::process::exit(2);
+                }
+                continue;
+            }
+            // The thread has finished every mark_as_done it will ever run (nothing more was
+            // sent) and sits in `recv`; its wake-ups happened before `done` was bumped. One more
+            // poll of everybody: whoever is still pending now can never be woken again.
+            let mut late = false;
+            for s in self.subs.clone() {
+                let a = self.actors.get_mut(&s).unwrap();
+                a.wakes.0.store(0, Ordering::SeqCst);
+                while !a.finished() && a.poll() {
+                    late = true;
+                }
+            }
+            if !late && self.shared.borrow().sent == sent {
+                break;
+            }
+        }
+    }
+
+    /// Threaded mode: closes the channel and joins the second thread.
+    fn shutdown(mut self) {
+        if let Some((handle, gate)) = self.thread.take() {
+            gate.open();
+            self.actors.clear();
+            self.keep_tx = None;
+            let _ = handle.join();
         }
     }
 
@@ -394,7 +579,7 @@ fn judge(sys: &System, calls: &BTreeMap<String, Vec<String>>, out: &mut Outcome,
     for (s, ids) in calls {
         let rets = sh.rets.get(s).cloned().unwrap_or_default();
         for (k, r) in rets.iter().enumerate() {
-            if r.0 != id_num(&ids[k]) || r.1 == 0 || r.1 > sh.runs {
+            if r.0 != id_num(&ids[k]) || r.1 == 0 || r.1 > sys.runs.load(Ordering::SeqCst) {
                 ok = false;
                 out.violation(
                     "C14",
@@ -409,6 +594,10 @@ fn judge(sys: &System, calls: &BTreeMap<String, Vec<String>>, out: &mut Outcome,
 }
 
 fn replay(args: &Args) {
+    // `--mode threads`: the pipeline loop runs on a real second OS thread (own current-thread
+    // runtime, as in Pipeline::new) and is stepped from gate to gate; submitters stay hand-polled.
+    let threaded = args.extra.get("mode").map(|s| s.as_str()) == Some("threads");
+    let stride = args.extra_usize("stride", 1).max(1);
     p2panda_core::verif::set_async_controller(Some(Arc::new(controller)));
     let behaviours = read_ndjson(args.input.as_ref().expect("--in"));
     let code_rf = probe_register_first();
@@ -421,12 +610,16 @@ fn replay(args: &Args) {
     );
     out.count(if code_rf { "code_order_register_first" } else { "code_order_check_first" });
 
-    for b in &behaviours {
+    out.count(if threaded { "mode_threads" } else { "mode_single_thread" });
+    for (bi, b) in behaviours.iter().enumerate() {
+        if bi % stride != 0 {
+            continue;
+        }
         out.eval();
         let calls = calls_of(b);
         let cap = b["cfg"]["cap"].as_u64().unwrap_or(128) as usize;
         let spec_rf = b["cfg"]["registerFirst"].as_bool().unwrap_or(true);
-        let mut sys = build(&calls, &BTreeMap::new(), cap);
+        let mut sys = build(&calls, &BTreeMap::new(), cap, threaded);
         let mut nontrivial = false;
         let mut mismatch: Option<String> = None;
 
@@ -443,15 +636,19 @@ fn replay(args: &Args) {
             if spec_rf != code_rf && act == "CreateNotified" {
                 continue;
             }
-            let a = sys.actors.get_mut(actor).unwrap();
-            a.poll();
-            if !spec_rf && code_rf && act.starts_with("Check") {
-                a.poll(); // the code has creation + check where the (defect) spec has the check alone
-            }
-            let got_pc = if actor == "pipe" {
-                pipe_loc_name(&a.loc)
+            let got_pc = if actor == "pipe" && threaded {
+                sys.pipe_step_threaded(act)
             } else {
-                sub_loc_name(&a.loc, code_rf)
+                let a = sys.actors.get_mut(actor).unwrap();
+                a.poll();
+                if !spec_rf && code_rf && act.starts_with("Check") {
+                    a.poll(); // the code has creation + check where the (defect) spec has the check alone
+                }
+                if actor == "pipe" {
+                    pipe_loc_name(&a.loc)
+                } else {
+                    sub_loc_name(&a.loc, code_rf)
+                }
             };
             let want_pc = st["pc"].as_str().unwrap().to_string();
             let sh = sys.shared.borrow();
@@ -490,8 +687,13 @@ fn replay(args: &Args) {
         }
 
         // free run: whatever the prefix was, every call has to return now
-        sys.run_to_quiescence();
+        if threaded {
+            sys.run_to_quiescence_threaded();
+        } else {
+            sys.run_to_quiescence();
+        }
         let ok = judge(&sys, &calls, &mut out, b);
+        sys.shutdown();
         if ok {
             if let Some(m) = mismatch {
                 out.violation("C14", "spec-mismatch", m, b.clone());
@@ -561,7 +763,7 @@ fn record(args: &Args) {
             calls.insert(s.clone(), ids[..k].to_vec());
             more.insert(s.clone(), k < ids.len());
         }
-        let mut sys = build(&calls, &more, cap);
+        let mut sys = build(&calls, &more, cap, false);
         w.event(json!({"ev": "Reset", "run": run, "calls": table, "cap": cap, "registerFirst": code_rf}));
         let mut sched = Vec::new();
         let mut waited = false;
@@ -595,7 +797,7 @@ fn record(args: &Args) {
                 if !progressed {
                     continue;
                 }
-                w.event(json!({"ev": "Pipe", "pc": pipe_loc_name(&to), "runs": sh.runs}));
+                w.event(json!({"ev": "Pipe", "pc": pipe_loc_name(&to), "runs": sys.runs.load(Ordering::SeqCst)}));
             } else {
                 // a submitter whose table was cut short stops silently (the spec leaves it at `track`)
                 if to == Loc::Done && more[&name] {
@@ -635,8 +837,4 @@ fn record(args: &Args) {
     out.set_trace(events, runs);
     p2panda_core::verif::set_async_controller(None);
     out.write(args);
-}
-
-fn replay_pipeline(args: &Args) {
-    unknown(args)
 }
